@@ -306,7 +306,18 @@ def history_s(draw, pid, tier, conf=None, max_clients=None, distinct_ids=False, 
         # the operator edits the service table and reloads while clients are being served: a removed service that
         # still owes answers keeps serving the clients that wait for it, new clients follow the new table
         svcs = [list(x) for x in conf["services"]]
-        for _ in range(draw(st.integers(1, 2))):
+        xs = [j for j, e_ in enumerate(events) if e_[0] in ("X", "x") and e_[-1] == "cur" and e_[2] in [y[0] for y in svcs]]
+        if xs and draw(st.booleans()):
+            # targeted: the service is dropped (or changes its protocol) shortly before one of its replies arrives,
+            # i.e. most likely while it still owes that client an answer
+            j = draw(st.sampled_from(xs))
+            name = events[j][2]
+            if draw(st.integers(0, 3)) > 0:
+                svcs = [y for y in svcs if y[0] != name]
+            else:
+                svcs = [[y[0], draw(st.sampled_from(proto.PROTOCOLS))] if y[0] == name else y for y in svcs]
+            events.insert(max(1, j - draw(st.sampled_from([0, 0, 1, 2, 4]))), ["reconf", {"services": [list(x) for x in svcs]}])
+        for _ in range(draw(st.integers(0, 2))):
             e = draw(st.sampled_from(["drop", "drop", "add", "retype", "readd"]))
             if e == "drop" and svcs:
                 svcs = [x for i, x in enumerate(svcs) if i != draw(st.integers(0, len(svcs) - 1))]
